@@ -134,11 +134,15 @@ fn calc_max_day_cost_per_sec(all_deltas: &Vec<TxDelta>) -> MaxDayCosts {
     let sorted_days = sorted_days; // finalize
 
     // Go through each day and populate the ACB for every seen security in each MaxSingleDayCosts
+    // The day totals are sums of rounded decimals: add the securities in a
+    // fixed (sorted) order rather than in the set's per-run iteration order.
+    let mut sorted_secs: Vec<&Security> = security_set.iter().collect();
+    sorted_secs.sort();
     let mut last_acbs = HashMap::<Security, GreaterEqualZeroDecimal>::new();
     for day in sorted_days {
         let max_costs = max_costs_by_day.get_mut(&day).unwrap();
         let closing_costs = closing_costs_by_day.get(&day);
-        for sec in &security_set {
+        for sec in sorted_secs.iter().copied() {
             let last_acb = *max_costs
                 .sec_max_cost_for_day
                 .get(sec)
